@@ -56,6 +56,10 @@ type world struct {
 	rrDenom  string
 	fresh    int
 	late     bool
+	ethVictim sdk.AccAddress
+	rrTotal, rrHeld sdk.Int
+	rrVariant string
+	custN, custMode int
 }
 
 func newWorld(seed uint64, r *hx.Rng, rec *recorder, hist int) *world {
@@ -155,6 +159,9 @@ func (w *world) history(only string) {
 	w.setupRecovery()
 	w.setupSpending()
 	w.setupCollective()
+	w.ethVictim = w.freshAddr()
+	w.id(w.ethVictim.String())
+	w.must("fund-eth-victim", []sdk.Msg{banktypes.NewMsgSend(w.addr(0), w.ethVictim, sdk.NewCoins(ukex(5_000_000_000)))}, []int{0})
 	w.end()
 	// second block: time passes so that undelegations mature
 	w.begin(2629800 + 100)
@@ -166,6 +173,8 @@ func (w *world) history(only string) {
 	w.begin(700)
 	w.late = true
 	w.ops(10, only)
+	w.custodyBoundary()
+	w.rrBoundaryAttempt()
 	w.end()
 }
 
@@ -252,16 +261,38 @@ func (w *world) setupLayer2() {
 	}
 }
 
+// custody thresholds sit on both sides of k/n for every k: (custodians, required percentage)
+var custodySweep = [][2]int{{2, 100}, {2, 50}, {2, 51}, {3, 67}, {3, 66}, {3, 34}, {3, 33}, {3, 100}, {2, 49}, {3, 1}}
+
 func (w *world) setupCustody() {
 	w.custOwner = 5
-	w.custodians = []int{6, 7}
+	cfg := custodySweep[w.hist%len(custodySweep)]
+	w.custN, w.custMode = cfg[0], cfg[1]
+	w.custodians = []int{6, 7, 0}[:w.custN]
 	key := "k0"
 	kh := sha256.Sum256([]byte("k1"))
-	w.must("custody-create", []sdk.Msg{custodytypes.NewMsgCreateCustody(w.addr(5), custodytypes.CustodySettings{CustodyEnabled: true, CustodyMode: 100, UsePassword: false},
+	w.must("custody-create", []sdk.Msg{custodytypes.NewMsgCreateCustody(w.addr(5), custodytypes.CustodySettings{CustodyEnabled: true, CustodyMode: uint64(w.custMode), UsePassword: false},
 		key, hex.EncodeToString(kh[:]), "", "")}, []int{5})
 	kh2 := sha256.Sum256([]byte("k2"))
-	w.must("custody-add-custodians", []sdk.Msg{custodytypes.NewMsgAddToCustodyCustodians(w.addr(5), []sdk.AccAddress{w.addr(6), w.addr(7)}, "k1", hex.EncodeToString(kh2[:]), "", "")}, []int{5})
+	var cs []sdk.AccAddress
+	for _, c := range w.custodians {
+		cs = append(cs, w.addr(c))
+	}
+	w.must("custody-add-custodians", []sdk.Msg{custodytypes.NewMsgAddToCustodyCustodians(w.addr(5), cs, "k1", hex.EncodeToString(kh2[:]), "", "")}, []int{5})
 	w.custodySend()
+}
+
+// custodyBoundary: a fresh request approved by the listed custodians one after the other, so that
+// the release is observed exactly at (and not before) the configured share
+func (w *world) custodyBoundary() {
+	w.custodySend()
+	for _, c := range w.custodians {
+		if len(w.custHashes) == 0 {
+			return
+		}
+		w.tx("custody-approve", false, []sdk.Msg{custodytypes.NewMsgApproveCustodyTransaction(w.addr(c), w.addr(w.custOwner), w.custHashes[0])}, []int{c})
+		w.refreshCustody()
+	}
 }
 
 // custodySend: the custody owner requests a transfer (pooled until approved)
@@ -289,10 +320,57 @@ func (w *world) setupRecovery() {
 	h := sha256.Sum256(bz)
 	w.secretOf[4] = secret
 	w.must("register-recovery-secret", []sdk.Msg{recoverytypes.NewMsgRegisterRecoverySecret(w.astr(4), hex.EncodeToString(h[:]), "00", "")}, []int{4})
-	// validator a0 issues recovery tokens and hands 40% to a7
+	// validator a0 issues recovery tokens; the supply is made even or odd with the real burn
+	// message and account a7 is handed a holding on either side of half of it
 	w.must("issue-recovery-tokens", []sdk.Msg{recoverytypes.NewMsgIssueRecoveryTokens(w.astr(0))}, []int{0})
 	w.rrDenom = "rr/mon0"
-	w.must("send-rr", []sdk.Msg{banktypes.NewMsgSend(w.addr(0), w.addr(7), sdk.NewCoins(sdk.NewCoin(w.rrDenom, sdk.NewInt(4_000_000_000_000))))}, []int{0})
+	issued := sdk.NewInt(10_000_000).Mul(sdk.NewInt(1000_000))
+	type rv struct {
+		name string
+		burn sdk.Int
+		held func(t sdk.Int) sdk.Int
+	}
+	two := sdk.NewInt(2)
+	floor := func(t sdk.Int) sdk.Int { return t.Quo(two) }
+	ceil := func(t sdk.Int) sdk.Int { return t.Add(sdk.OneInt()).Quo(two) }
+	vs := []rv{
+		{"even:half-1", sdk.NewInt(2), func(t sdk.Int) sdk.Int { return floor(t).SubRaw(1) }},
+		{"even:half", sdk.NewInt(2), floor},
+		{"even:half+1", sdk.ZeroInt(), func(t sdk.Int) sdk.Int { return ceil(t).AddRaw(1) }},
+		{"odd:floor-1", sdk.NewInt(3), func(t sdk.Int) sdk.Int { return floor(t).SubRaw(1) }},
+		{"odd:floor", sdk.NewInt(3), floor},
+		{"odd:ceil", sdk.NewInt(3), ceil},
+		{"odd:ceil+1", sdk.NewInt(1), func(t sdk.Int) sdk.Int { return ceil(t).AddRaw(1) }},
+		{"one:holder-0", issued.SubRaw(1), func(t sdk.Int) sdk.Int { return sdk.ZeroInt() }},
+		{"one:holder-1", issued.SubRaw(1), func(t sdk.Int) sdk.Int { return sdk.OneInt() }},
+		{"three:holder-1", issued.SubRaw(3), func(t sdk.Int) sdk.Int { return sdk.OneInt() }},
+		{"odd:floor", sdk.NewInt(12345), floor},
+		{"40-percent", sdk.ZeroInt(), func(t sdk.Int) sdk.Int { return t.MulRaw(4).QuoRaw(10) }},
+	}
+	v := vs[w.hist%len(vs)]
+	w.rrVariant = v.name
+	if v.burn.IsPositive() {
+		w.must("burn-rr", []sdk.Msg{recoverytypes.NewMsgBurnRecoveryTokens(w.addr(0), sdk.NewCoin(w.rrDenom, v.burn))}, []int{0})
+	}
+	w.rrTotal = issued.Sub(v.burn)
+	w.rrHeld = v.held(w.rrTotal)
+	if w.rrHeld.IsPositive() {
+		w.must("send-rr", []sdk.Msg{banktypes.NewMsgSend(w.addr(0), w.addr(7), sdk.NewCoins(sdk.NewCoin(w.rrDenom, w.rrHeld)))}, []int{0})
+	}
+}
+
+// rrBoundaryAttempt: at the very end of the history account a7 (holding exactly the swept amount)
+// tries to rotate validator a0, whose unclaimed rewards are topped up so that the move is visible
+func (w *world) rrBoundaryAttempt() {
+	ctx := w.ctx()
+	rw := sdk.NewCoins(ukex(3000 + int64(w.r.Intn(1000))))
+	if err := w.c.App.BankKeeper.MintCoins(ctx, minttypes.ModuleName, rw); err == nil {
+		if err := w.c.App.BankKeeper.SendCoinsFromModuleToModule(ctx, minttypes.ModuleName, authtypes.FeeCollectorName, rw); err == nil {
+			w.c.App.MultiStakingKeeper.IncreaseDelegatorRewards(ctx, w.addr(0), rw)
+		}
+	}
+	na := w.freshAddr()
+	w.tx("recovery-rotate-validator-boundary:"+w.rrVariant, true, []sdk.Msg{recoverytypes.NewMsgRotateValidatorByHalfRRTokenHolder(w.astr(7), w.astr(0), na.String())}, []int{7})
 }
 
 func (w *world) setupCollective() {
@@ -311,10 +389,12 @@ func (w *world) setupCollective() {
 func (w *world) setupSpending() {
 	msg := spendingtypes.NewMsgCreateSpendingPool("pool1", uint64(w.c.Time.Unix()), 0, sdk.NewDecCoins(sdk.NewDecCoinFromDec("ukex", sdk.NewDecWithPrec(1, 1))),
 		sdk.NewDecWithPrec(30, 2), 600, 300, spendingtypes.PermInfo{OwnerAccounts: []string{w.astr(0)}},
-		spendingtypes.WeightedPermInfo{Accounts: []spendingtypes.WeightedAccount{{Account: w.astr(1), Weight: sdk.OneDec()}}}, w.addr(0), false, 0)
+		spendingtypes.WeightedPermInfo{Accounts: []spendingtypes.WeightedAccount{{Account: w.astr(1), Weight: sdk.OneDec()}, {Account: w.astr(2), Weight: sdk.OneDec()}}}, w.addr(0), false, 0)
+	msg.ClaimExpiry = 100000
 	w.must("create-spending-pool", []sdk.Msg{msg}, []int{0})
 	w.must("deposit-spending-pool", []sdk.Msg{spendingtypes.NewMsgDepositSpendingPool("pool1", sdk.NewCoins(ukex(50_000_000)), w.addr(0))}, []int{0})
 	w.tx("register-spending-beneficiary", false, []sdk.Msg{spendingtypes.NewMsgRegisterSpendingPoolBeneficiary("pool1", w.addr(1))}, []int{1})
+	w.tx("register-spending-beneficiary", false, []sdk.Msg{spendingtypes.NewMsgRegisterSpendingPoolBeneficiary("pool1", w.addr(2))}, []int{2})
 }
 
 // ---------------------------------------------------------------- operations
@@ -565,15 +645,21 @@ func (w *world) opTable() map[string]opFn {
 			w.tx("recovery-rotate-other", true, []sdk.Msg{recoverytypes.NewMsgRotateRecoveryAddress(w.astr(s), w.astr(4), na.String(), proof)}, []int{s})
 		},
 		"x:recovery-rotate-validator": func(w *world) {
-			s := []int{7, 7, 1, 2}[w.r.Intn(4)]
-			if s == 7 && !w.late { // a holder of half the tokens may rotate: keep that for the last block
-				s = 2
-			}
+			s := []int{1, 2, 3, 6}[w.r.Intn(4)] // holders of no recovery tokens; a7's swept holding is tried at the end
 			na := w.freshAddr()
 			w.tx("recovery-rotate-validator", true, []sdk.Msg{recoverytypes.NewMsgRotateValidatorByHalfRRTokenHolder(w.astr(s), w.astr(0), na.String())}, []int{s})
 		},
-		"h:send-more-rr": func(w *world) {
-			w.tx("send-rr", false, []sdk.Msg{banktypes.NewMsgSend(w.addr(0), w.addr(7), sdk.NewCoins(sdk.NewCoin(w.rrDenom, sdk.NewInt(1_500_000_000_000))))}, []int{0})
+		"x:eth-raw-forged-sender": func(w *world) {
+			s := w.r.Intn(nAcc)
+			victim := w.ethVictim
+			if w.r.Chance(30) {
+				victim = w.addr(w.other(s))
+			}
+			w.ethForged(s, victim, 1000+int64(w.r.Intn(100000)))
+		},
+		"h:rr-claim-holder-rewards": func(w *world) {
+			s := []int{0, 7}[w.r.Intn(2)]
+			w.tx("rr-claim-holder-rewards", false, []sdk.Msg{recoverytypes.NewMsgClaimRRHolderRewards(w.addr(s))}, []int{s})
 		},
 		"h:collective-withdraw": func(w *world) {
 			s := 1 + w.r.Intn(2)
@@ -588,10 +674,11 @@ func (w *world) opTable() map[string]opFn {
 			w.tx("collective-withdraw-stranger", true, []sdk.Msg{collectivestypes.NewMsgWithdrawCollective(w.addr(s), "col1")}, []int{s})
 		},
 		"h:spending-claim": func(w *world) {
-			w.tx("spending-claim", false, []sdk.Msg{spendingtypes.NewMsgClaimSpendingPool("pool1", w.addr(1))}, []int{1})
+			s := 1 + w.r.Intn(2)
+			w.tx("spending-claim", false, []sdk.Msg{spendingtypes.NewMsgClaimSpendingPool("pool1", w.addr(s))}, []int{s})
 		},
 		"x:spending-claim-stranger": func(w *world) {
-			s := 2 + w.r.Intn(6)
+			s := 3 + w.r.Intn(5)
 			w.tx("spending-claim-stranger", true, []sdk.Msg{spendingtypes.NewMsgClaimSpendingPool("pool1", w.addr(s))}, []int{s})
 		},
 		"x:two-signer-smuggle": func(w *world) { // the second message names an account that did not sign
